@@ -293,7 +293,7 @@ func runC05(run *common.Run) {
 	run.Assumptions = []string{"evaluator written from the Bigtable filter documentation, own byte-regex matcher for a restricted RE2 subset", "an invalid argument must be rejected only if the documented semantics apply it to at least one cell / non-empty row; otherwise either outcome is accepted", "cells-per-row limit/offset cutting into a multi-family row that came out of an interleave is not decided (family order unspecified)", "a zero cells-per-row/column limit may be rejected or return nothing"}
 	j := common.NewJournal("C05")
 	ntables := run.N(2, 4)
-	ntrees := run.N(2500, 80000)
+	ntrees := run.N(10000, 200000)
 	var ambiguous, errExpectedN, requests int64
 	for ei, engine := range drive.Engines {
 		if run.TooMany() {
